@@ -71,6 +71,7 @@ func GetReplayCache(d time.Duration) *Cache {
 
 // AddEntry adds an entry to the Cache.
 func (c *Cache) AddEntry(sname types.PrincipalName, a types.Authenticator) {
+	verifYield("AddEntry.enter")
 	c.mux.Lock()
 	defer c.mux.Unlock()
 	c.addEntry(sname, a)
@@ -102,6 +103,7 @@ func (c *Cache) addEntry(sname types.PrincipalName, a types.Authenticator) {
 
 // ClearOldEntries clears entries from the Cache that are older than the duration provided.
 func (c *Cache) ClearOldEntries(d time.Duration) {
+	verifYield("ClearOldEntries.enter")
 	c.mux.Lock()
 	defer c.mux.Unlock()
 	for ke, ce := range c.entries {
@@ -122,6 +124,7 @@ func (c *Cache) ClearOldEntries(d time.Duration) {
 func (c *Cache) IsReplay(sname types.PrincipalName, a types.Authenticator) bool {
 	ct := a.CTime.Add(time.Duration(a.Cusec) * time.Microsecond)
 	// The look up and the insert must be one critical section or concurrent presentations of one authenticator all pass.
+	verifYield("IsReplay.enter")
 	c.mux.Lock()
 	defer c.mux.Unlock()
 	if ce, ok := c.entries[a.CName.PrincipalNameString()]; ok {
@@ -131,6 +134,7 @@ func (c *Cache) IsReplay(sname types.PrincipalName, a types.Authenticator) bool 
 			}
 		}
 	}
+	verifYield("IsReplay.between")
 	c.addEntry(sname, a)
 	return false
 }
